@@ -113,7 +113,9 @@ AuxNext(aux, pre, ev, post) ==
      rev |-> [d \in Devs |-> aux.rev[d] + SeqSum([i \in DOMAIN Occ(ev, "recv", d) |-> Occ(ev, "recv", d)[i][5]])],
      idle |-> [d \in Devs |->
                  IF d \in HoldDevs /\ ( (~FreeDev(pre, d) /\ FreeDev(post, d))
-                                         \/ (d \in Procs /\ pre.dev[d].down /\ ~post.dev[d].down) )
+                                         \/ (d \in Procs /\ pre.dev[d].down /\ ~post.dev[d].down)
+                                         \* replacing a waiting device's connections restarts its waiting time (documented in the code)
+                                         \/ (ScriptOn(ev, "rewire", d) /\ FreeDev(post, d) /\ Operational(post, d)) )
                  THEN post.now ELSE aux.idle[d]],
      join |-> [p \in DOMAIN post.part |->
                  IF \E d \in Devs : Kind(d) = "batcher" /\ p \in JoinedAt(pre, post, d) THEN post.part[p].hist
@@ -404,7 +406,9 @@ C16(pre, ev, post, aux, jpost) ==
 (***************************************************************************)
 IsSuffix(a, b) == Len(a) <= Len(b) /\ SubSeq(b, Len(b) - Len(a) + 1, Len(b)) = a
 IsPrefixOf(a, b) == Len(a) <= Len(b) /\ SubSeq(b, 1, Len(a)) = a
-Connected(a, b) == a \in Range(cfg.devs[b].ups)          \* from the configuration, not from the objects
+Connected(a, b) == \/ a \in Range(cfg.devs[b].ups)        \* from the configuration, not from the objects
+                   \/ \E i \in DOMAIN cfg.script : cfg.script[i].call = "rewire" /\ cfg.script[i].dev = b
+                                                     /\ a \in Range(cfg.script[i].ups)
 InputsOf(P) == {x \in Devs : GInput(P) \in Range(cfg.devs[x].ups)}
 OutputsOf(P) == Range(cfg.devs[GOutput(P)].ups)
 (* walk the history with a stack of entered group paths: plain connection, entering a group through *)
